@@ -624,3 +624,82 @@ def loop_body_paths(cfg: CFG, loop: Node, limit: int = 2000) -> List[List[Tuple[
                 continue
             stack.append((s, path + [(node, lab)], used | {ekey}))
     return out
+
+
+# ------------------------------------------------------------------ E8 linearity: placements of a loop element
+def element_placements(node_ast: ast.AST, var: str) -> List[Tuple[str, ast.AST]]:
+    """Ways the loop element `var` is put into an output inside one statement.
+
+    kinds: append (x itself), literal ([x] stored somewhere), yield, replace (extend/yield from of a
+    value computed from x: x's replacement list or its flattened children).
+    """
+    out: List[Tuple[str, ast.AST]] = []
+    for x in ast.walk(node_ast):
+        if isinstance(x, ast.Call) and isinstance(x.func, ast.Attribute):
+            if x.func.attr in ("append", "add") and len(x.args) == 1:
+                a = x.args[0]
+                if isinstance(a, ast.Name) and a.id == var:
+                    out.append(("append", x))
+                elif mentions(a, var):
+                    out.append(("append-derived", x))
+            elif x.func.attr == "extend" and len(x.args) == 1 and mentions(x.args[0], var):
+                out.append(("replace", x))
+            elif x.func.attr == "insert" and len(x.args) == 2 and mentions(x.args[1], var):
+                out.append(("append", x))
+        elif isinstance(x, ast.Yield) and x.value is not None and mentions(x.value, var):
+            out.append(("yield", x))
+        elif isinstance(x, ast.YieldFrom) and mentions(x.value, var):
+            out.append(("replace", x))
+        elif isinstance(x, ast.Assign) and isinstance(x.targets[0], ast.Subscript) and isinstance(x.value, (ast.List, ast.Tuple)):
+            if any(isinstance(e, ast.Name) and e.id == var for e in x.value.elts):
+                out.append(("literal", x))
+    return out
+
+
+def isinstance_atom(test: ast.AST) -> Optional[Tuple[str, List[str]]]:
+    """(subject name, [class names]) for `isinstance(name, C)` / `isinstance(name, (C, D))`."""
+    if isinstance(test, ast.Call) and isinstance(test.func, ast.Name) and test.func.id == "isinstance" and len(test.args) == 2 and isinstance(test.args[0], ast.Name):
+        spec = test.args[1]
+        elts = spec.elts if isinstance(spec, ast.Tuple) else [spec]
+        names = []
+        for e in elts:
+            if isinstance(e, ast.Name):
+                names.append(e.id)
+            elif isinstance(e, ast.Attribute):
+                names.append(e.attr)
+            else:
+                return None
+        return test.args[0].id, names
+    if isinstance(test, ast.Compare) and len(test.ops) == 1 and isinstance(test.ops[0], ast.Eq):
+        # other.__class__.__name__ == "Remark"
+        l, r = test.left, test.comparators[0]
+        if isinstance(r, ast.Constant) and isinstance(r.value, str) and src(l).endswith(".__class__.__name__"):
+            root = src(l).split(".")[0]
+            return root, [r.value]
+    return None
+
+
+def possible_classes(ctx: Ctx, static: List[Class], atoms: List[Tuple[ast.AST, bool]], var: str) -> Optional[Set[str]]:
+    """Concrete classes the loop element can still have after the isinstance atoms of a path.
+
+    `static` is the declared element type (list of classes); subclasses are included.  None = unknown type.
+    """
+    if not static:
+        return None
+    universe: Set[str] = set()
+    for c in static:
+        for s in ctx.prog.subclasses(c):
+            universe.add(s.name)
+    cur = set(universe)
+    for test, truth in atoms:
+        ia = isinstance_atom(test)
+        if ia is None or ia[0] != var:
+            continue
+        covered: Set[str] = set()
+        for cn in ia[1]:
+            c = ctx.prog.classes.get(cn)
+            if c is None:
+                continue
+            covered |= {s.name for s in ctx.prog.subclasses(c)}
+        cur = cur & covered if truth else cur - covered
+    return cur
